@@ -33,9 +33,9 @@ CHECKS = {
             "Trusted: the reference model's weak readings documented in DESIGN 4/C04; the dedup key is model state only (no accessor hook into the server), guarded by the no-dedup rerun. 'Random beyond the bound' is not claimed.",
             "DESIGN.md 4/C04"),
     "C05": ("model_checking", "lattice",
-            "deviation-bounded exhaustive enumeration (0, 1, 2 deviations from every well-formed request, two negotiation states, second-message position) against the real BackendReqHandler; panics caught, fatal signals trapped, handler arguments checked by an independent validity predicate",
-            "For a well-formed instance of every request code the message itself, every single deviation (request code 0..=64 and 2^k neighbours, each flag bit, size field over {0,n-1,n+1,4095,4096,4097,2^31,2^32-1}, each 64/32-bit body field over the boundary lattice, truncated/extended body, descriptor counts {0,1,2,n-1,n+1,32,33,40}, descriptors attached to the body segment) and pairs of deviations on different dimensions are fed by a raw peer in two negotiation states and as the second message after each state-changing message (1.2e5 messages quick). The harness is built with overflow checks and debug assertions; a panic, abort or fatal signal is a violation, and every argument tuple the recording handler sees must satisfy the independently written validity predicate with exactly the prescribed file count.",
-            "Trusted: model/validators.rs as the validity rules; reads outside the received message are detected only if they fault. Streams of more than two messages / more than two deviations are outside the bound. Part (ii) (adversarial daemon sequences) is added with the daemon harness.",
+            "deviation-bounded exhaustive enumeration (0, 1, 2 deviations from every well-formed request, two negotiation states, second-message position) against the real BackendReqHandler, plus exhaustive enumeration of all adversarial well-typed message sequences up to length 3 against a running VhostUserDaemon; panics caught, fatal signals trapped, thread death detected, handler arguments checked by an independent validity predicate",
+            "For a well-formed instance of every request code the message itself, every single deviation (request code 0..=64 and 2^k neighbours, each flag bit, size field over {0,n-1,n+1,4095,4096,4097,2^31,2^32-1}, each 64/32-bit body field over the boundary lattice, truncated/extended body, descriptor counts {0,1,2,n-1,n+1,32,33,40}, descriptors attached to the body segment) and pairs of deviations on different dimensions are fed by a raw peer in two negotiation states and as the second message after each state-changing message (1.2e5 messages quick). The harness is built with overflow checks and debug assertions; a panic, abort or fatal signal is a violation, and every argument tuple the recording handler sees must satisfy the independently written validity predicate with exactly the prescribed file count. Part (ii): against a running daemon (real VhostUserHandler, epoll worker, dirty-log bitmap), every sequence of length 1 and 2 and the length-3 sequences 'memory-table message; ring-address / log / kick message; third message' over 146 well-typed messages with adversarial 64-bit fields (ranges ending just below 2^64, huge sizes / offsets, ring addresses at region edges +-16, ring indexes up to 2^32-1, log windows of 1 byte / 2^62 bytes / unaligned / beyond the file) plus 'guest kick followed by add_used in the backend' (2.8e4 sequences quick); no thread may panic or die and the daemon must keep answering.",
+            "Trusted: model/validators.rs as the validity rules; reads outside the received message are detected only if they fault. Streams of more than two deviating messages / more than two deviations / daemon sequences longer than 3 are outside the bound.",
             "DESIGN.md 4/C05"),
     "C06": ("model_checking", "lattice",
             "deviation-bounded exhaustive enumeration (0, 1, 2 mutations of the correct reply) against the real endpoints with a scripted raw peer, acceptance predicate evaluated on the bytes",
